@@ -11,12 +11,13 @@ HASHSEED_SLICE = True
 class S(explore.Spec):
   rename_targets = ("Z", "B")
   reparse = True
+  follow_errors = True
 
   def judge(self, g, env, hist, op, err):
-    if err is not None:
-      # a refused operation is not part of the history (C08 owns the state
-      # after a failure, C07 owns foreign exceptions)
-      return []
+    if err is not None and not isinstance(err, gfapy.Error):
+      return [("skip", "foreign exception (C07)")]
+    # a refused operation (gfapy.Error) may be caught by the caller, who
+    # carries on: the graph must still be closed and symmetric afterwards
     if observe.ill_typed(g):
       return [("skip", "ill-typed reference")]
     probs = invariants.check_closed_symmetric(g, env.removed)
